@@ -2,16 +2,19 @@ import Slock.Proofs.TextParse
 /-! Helper lemmas for M-TEXT: when may the chunk-local parser state be forgotten (C14 text part, chunking). -/
 namespace Slock.Text
 
-/-- A chunk boundary is *clean* when the `case 4` handler is not in the middle of its block copy and, if it is in the
-trailing LF scan, the persistent `cargIndex` already equals `cargLen`.  In terms of the byte stream: no earlier boundary
-fell strictly inside the current argument's data, and this one does not either. -/
-def cleanCut (s : PState) (l : Loc) : Bool :=
-  if s.stage = .s4 then
+/-- What the chunk-local state always satisfies (a reachability invariant of the automaton): in the block copy the
+bytes still to go are exactly `cargLen - cargIndex`; in the trailing LF scan `cargIndex` has reached `cargLen`.
+So the chunk-local state carries no information beyond the persistent one (except `prev`, which only matters for a
+lone LF) and may be forgotten at any byte position. -/
+def Inv (s : PState) (l : Loc) : Prop :=
+  s.stage = .s4 →
     match l.phase with
-    | .entry => true
-    | .scan => decide (s.cargLen - (s.got : Int) ≤ 0)
-    | .data _ _ => false
-  else true
+    | .entry => True
+    | .scan => s.cargLen - (s.got : Int) ≤ 0
+    | .data left => 1 ≤ left ∧ (left : Int) = s.cargLen - (s.got : Int)
+
+theorem Inv_fresh (s : PState) (p : Option UInt8) : Inv s ⟨p, .entry⟩ := by
+  intro _; trivial
 
 def Step.good : Step → Bool
   | .cont _ _ => true
@@ -38,8 +41,8 @@ theorem numStep_prev (num : Bytes) (p : Option UInt8) (b : UInt8) (hg : numStep 
     | false => simp [lfBad]
   · simp [hb]
 
-/-- forgetting the chunk-local state at a clean boundary does not change a step that succeeds -/
-theorem step_reset (s : PState) (l : Loc) (b : UInt8) (hc : cleanCut s l = true) (hg : (step s l b).good = true) :
+/-- forgetting the chunk-local state does not change a step that succeeds -/
+theorem step_reset (s : PState) (l : Loc) (b : UInt8) (hc : Inv s l) (hg : (step s l b).good = true) :
     step s {} b = step s l b := by
   obtain ⟨p, ph⟩ := l
   unfold step at hg ⊢
@@ -58,11 +61,14 @@ theorem step_reset (s : PState) (l : Loc) (b : UInt8) (hc : cleanCut s l = true)
     rw [numStep_prev s.num p b this]
   | s4 =>
     simp only [hs] at hg ⊢
-    unfold cleanCut at hc
-    simp only [hs, if_true] at hc
+    have hc := hc hs
     unfold step4 at hg ⊢
     cases ph with
-    | data _ _ => simp at hc
+    | data left =>
+      simp only at hg hc ⊢
+      have hr : s.cargLen - (s.got : Int) > 0 := by omega
+      have e : (s.cargLen - (s.got : Int)).toNat = left := by omega
+      simp only [hr, if_true, e]
     | entry =>
       simp only at hg ⊢
       by_cases hr : s.cargLen - (s.got : Int) > 0
@@ -71,14 +77,117 @@ theorem step_reset (s : PState) (l : Loc) (b : UInt8) (hc : cleanCut s l = true)
         exact scanByte_prev s p .entry .entry b hg
     | scan =>
       simp only at hg hc ⊢
-      have hr : ¬ (s.cargLen - (s.got : Int) > 0) := by
-        have := of_decide_eq_true hc
-        omega
+      have hr : ¬ (s.cargLen - (s.got : Int) > 0) := by omega
       simp only [hr, if_false]
       exact scanByte_prev s p .scan .entry b hg
 
+theorem dataByte_inv (s : PState) (b : UInt8) (left : Nat) (_hs : s.stage = .s4) (h1 : 1 ≤ left)
+    (h2 : (left : Int) = s.cargLen - (s.got : Int)) :
+    match dataByte s b left with
+    | .cont s' l' => Inv s' l'
+    | .emit _ s' l' => Inv s' l'
+    | _ => True := by
+  unfold dataByte
+  cases (if s.got = 0 then some (s.args ++ [[b]]) else appendLast s.args b) with
+  | none => trivial
+  | some args' =>
+    simp only
+    by_cases hl : left ≤ 1
+    · simp only [hl, if_true]
+      intro _
+      show s.cargLen - ((s.cargLen.toNat : Nat) : Int) ≤ 0
+      omega
+    · simp only [hl, if_false]
+      intro _
+      show 1 ≤ left - 1 ∧ ((left - 1 : Nat) : Int) = s.cargLen - ((s.got + 1 : Nat) : Int)
+      omega
+
+theorem scanByte_inv (s : PState) (l : Loc) (b : UInt8) (hr : s.cargLen - (s.got : Int) ≤ 0) :
+    match scanByte s l b with
+    | .cont s' l' => Inv s' l'
+    | .emit _ s' l' => Inv s' l'
+    | _ => True := by
+  unfold scanByte
+  by_cases hb : b = 10
+  · simp only [hb, if_true]
+    cases lfBad l.prev with
+    | true => simp
+    | false =>
+      simp only [Bool.false_eq_true, if_false]
+      by_cases hlt : ((if s.cargLen = 0 then s.args ++ [[]] else s.args).length : Int) < s.argsCount
+      · simp only [hlt, if_true]; intro h; simp at h
+      · simp only [hlt, if_false]; intro h; simp at h
+  · simp only [hb, if_false]
+    intro _
+    exact hr
+
+/-- the invariant is preserved by every step -/
+theorem step_inv (s : PState) (l : Loc) (b : UInt8) (hc : Inv s l) :
+    match step s l b with
+    | .cont s' l' => Inv s' l'
+    | .emit _ s' l' => Inv s' l'
+    | _ => True := by
+  obtain ⟨p, ph⟩ := l
+  unfold step
+  cases hs : s.stage with
+  | s0 =>
+    simp only
+    by_cases hb : b = 42
+    · simp only [hb, if_true]; intro h; simp at h
+    · simp [hb]
+  | s2 =>
+    simp only
+    by_cases hb : b = 36
+    · simp only [hb, if_true]; intro h; simp at h
+    · simp [hb]
+  | s1 =>
+    simp only
+    cases numStep s.num p b with
+    | more n => intro h; simp at h
+    | done v => intro h; simp at h
+    | err => trivial
+  | s3 =>
+    simp only
+    cases numStep s.num p b with
+    | more n => intro h; simp at h
+    | done v => intro _; trivial
+    | err => trivial
+  | s4 =>
+    simp only
+    have hc := hc hs
+    unfold step4
+    cases ph with
+    | data left =>
+      simp only at hc ⊢
+      exact dataByte_inv s b left hs hc.1 hc.2
+    | entry =>
+      simp only
+      by_cases hr : s.cargLen - (s.got : Int) > 0
+      · simp only [hr, if_true]
+        exact dataByte_inv s b _ hs (by omega) (by omega)
+      · simp only [hr, if_false]
+        exact scanByte_inv s _ b (by omega)
+    | scan =>
+      simp only at hc ⊢
+      exact scanByte_inv s _ b hc
+
+theorem runBytes_inv (ys : Bytes) (s : PState) (l : Loc) (acc : Cmds) (hc : Inv s l)
+    (c : Cmds) (sf : PState) (lf : Loc) (h : runBytes s l acc ys = .ok c sf lf) : Inv sf lf := by
+  induction ys generalizing s l acc with
+  | nil =>
+    simp only [runBytes, Run.ok.injEq] at h
+    rw [← h.2.1, ← h.2.2]; exact hc
+  | cons b ys ih =>
+    rw [runBytes] at h
+    have hi := step_inv s l b hc
+    cases hst : step s l b with
+    | cont s' l' => simp only [hst] at h hi; exact ih s' l' acc hi h
+    | emit cmd s' l' => simp only [hst] at h hi; exact ih s' l' _ hi h
+    | err => simp [hst] at h
+    | panic => simp [hst] at h
+
 /-- … hence the rest of the run is unchanged -/
-theorem runBytes_reset (s : PState) (l : Loc) (acc : Cmds) (ys : Bytes) (hc : cleanCut s l = true)
+theorem runBytes_reset (s : PState) (l : Loc) (acc : Cmds) (ys : Bytes) (hc : Inv s l)
     (c : Cmds) (sf : PState) (lf : Loc) (h : runBytes s l acc ys = .ok c sf lf) :
     ∃ lf', runBytes s {} acc ys = .ok c sf lf' := by
   cases ys with
@@ -92,16 +201,9 @@ theorem runBytes_reset (s : PState) (l : Loc) (acc : Cmds) (ys : Bytes) (hc : cl
     refine ⟨lf, ?_⟩
     rw [runBytes, step_reset s l b hc hg, ← h, runBytes]
 
-/-- every boundary of the chunked run that is followed by more bytes is clean -/
-def allClean (s : PState) (acc : Cmds) : List Bytes → Bool
-  | [] => true
-  | c :: cs =>
-    match runBytes s {} acc c with
-    | .ok acc' s' l' => (cs.flatten.isEmpty || cleanCut s' l') && allClean s' acc' cs
-    | _ => true
-
+/-- the chunked run equals the one-buffer run whenever the latter does not fail — for EVERY chunking -/
 theorem feed_eq_run (chunks : List Bytes) (s : PState) (acc : Cmds) (c : Cmds) (sf : PState) (lf : Loc)
-    (href : runBytes s {} acc chunks.flatten = .ok c sf lf) (hclean : allClean s acc chunks = true) :
+    (href : runBytes s {} acc chunks.flatten = .ok c sf lf) :
     ∃ lf', feed s acc chunks = .ok c sf lf' := by
   induction chunks generalizing s acc lf with
   | nil =>
@@ -110,25 +212,15 @@ theorem feed_eq_run (chunks : List Bytes) (s : PState) (acc : Cmds) (c : Cmds) (
   | cons ch cs ih =>
     simp only [List.flatten_cons] at href
     rw [runBytes_append] at href
-    unfold allClean at hclean
     unfold feed
     cases h1 : runBytes s {} acc ch with
     | err a => simp [h1] at href
     | panic a => simp [h1] at href
     | ok acc' s' l' =>
-      simp only [h1, Bool.and_eq_true, Bool.or_eq_true, List.isEmpty_iff] at href hclean ⊢
-      by_cases hnil : cs.flatten = []
-      · rw [hnil] at href
-        have href' : runBytes s' {} acc' cs.flatten = .ok c sf {} := by
-          simp only [runBytes, Run.ok.injEq] at href
-          simp [hnil, runBytes, href.1, href.2.1]
-        exact ih s' acc' {} href' hclean.2
-      · have hcl : cleanCut s' l' = true := by
-          rcases hclean.1 with h | h
-          · exact absurd h hnil
-          · exact h
-        obtain ⟨lf', h2⟩ := runBytes_reset s' l' acc' cs.flatten hcl c sf lf href
-        exact ih s' acc' lf' h2 hclean.2
+      simp only [h1] at href ⊢
+      have hinv : Inv s' l' := runBytes_inv ch s {} acc (Inv_fresh s none) acc' s' l' h1
+      obtain ⟨lf', h2⟩ := runBytes_reset s' l' acc' cs.flatten hinv c sf lf href
+      exact ih s' acc' lf' h2
 
 /-- an argument list `BuildRequest`/the parser can carry: at least one argument, sizes representable as Go `int` -/
 def sizeOK (args : List Bytes) : Prop :=
